@@ -237,6 +237,58 @@ func c05Str(v any) string {
 	return fmt.Sprint(v)
 }
 
+// runPropName: a prop may be called like something the engine knows - key (the list hint of a
+// loop), is, ref, slot, name, class, style, id, required, include... - and is a prop all the same:
+// the component receives it (and :required is satisfied by it) on a plain include, on an include
+// that loops itself, on one inside a loop, and through the shorthand tag.
+func (c *c05Case) runPropName(ctx *core.Ctx, name string) {
+	ctx.NonTrivial()
+	for _, form := range []string{"bound", "static", "vbind"} {
+		for _, place := range []string{"plain", "looping", "inloop"} {
+			attr := map[string]string{"bound": ` :` + name + `="p.k"`, "static": ` ` + name + `="s{{ p.k }}"`, "vbind": ` v-bind:` + name + `="p.k"`}[form]
+			tag := `template include="components/Item.vuego"`
+			end := "template"
+			if c.Short {
+				tag, end = "item", "item"
+			}
+			var page string
+			switch place {
+			case "plain":
+				page = `<template :p="ps[0]"></template><ul><` + tag + attr + `></` + end + `></ul>`
+			case "looping":
+				page = `<ul><` + tag + ` v-for="p in ps"` + attr + `></` + end + `></ul>`
+			case "inloop":
+				page = `<ul><li v-for="p in ps"><` + tag + attr + `></` + end + `></li></ul>`
+			}
+			files := Files{"components/Item.vuego": `<template :required="` + name + `"><b class="it">{{ ` + name + ` }}</b></template>`, "page.vuego": page}
+			data := map[string]any{"ps": []map[string]any{{"k": "a"}, {"k": "b"}}, name: "PAGE"}
+			ctx.Eval(1)
+			out, err := renderPage(files, "page.vuego", data, vuego.WithComponents())
+			if err != nil {
+				ctx.Violation("required-not-satisfied", "propname/"+place+"/"+form, name, fmt.Sprintf("page %q: %v", page, err))
+				continue
+			}
+			var got []string
+			for _, n := range htmlcmp.Find(htmlcmp.Parse(out), func(n *html.Node) bool { cl, _ := htmlcmp.Attr(n, "class"); return cl == "it" }) {
+				got = append(got, htmlcmp.Text(n))
+			}
+			want := []string{"a", "b"}
+			if place == "plain" {
+				want = []string{"a"}
+			}
+			if form == "static" {
+				for i := range want {
+					want[i] = "s" + want[i]
+				}
+			}
+			ctx.Outcome(strings.Join(got, ","))
+			if strings.Join(got, ",") != strings.Join(want, ",") {
+				ctx.Violation("prop-value", "propname/"+place+"/"+form, name, fmt.Sprintf("page %q: the component shows %q for its prop %s, want %q (out %q)", page, got, name, want, clip(out, 300)))
+			}
+		}
+	}
+}
+
 // c05JSONish: static prop texts that start like JSON. A text that IS one JSON array or object is
 // decoded (the documented way of handing a list to a component from the tag); any other text is
 // the string the template's author wrote. Want = what {{ p }} prints in the component.
@@ -418,6 +470,10 @@ func (c *c05Case) runPlace(ctx *core.Ctx, place string) {
 func (c *c05Case) Run(ctx *core.Ctx) {
 	if strings.HasPrefix(c.Shape, "place:") {
 		c.runPlace(ctx, strings.TrimPrefix(c.Shape, "place:"))
+		return
+	}
+	if strings.HasPrefix(c.Shape, "propname:") {
+		c.runPropName(ctx, strings.TrimPrefix(c.Shape, "propname:"))
 		return
 	}
 	if strings.HasPrefix(c.Shape, "jsonish:") {
@@ -631,6 +687,10 @@ func init() {
 					emit(&c05Case{Shape: "place:" + place, Req: "crlf"})
 					emit(&c05Case{Shape: "place:" + place, Req: "trail"})
 				}
+			}
+			for _, name := range []string{"key", "is", "ref", "slot", "name", "id", "title", "type", "index", "item", "data", "value"} {
+				emit(&c05Case{Shape: "propname:" + name})
+				emit(&c05Case{Shape: "propname:" + name, Short: true})
 			}
 			for n := range c05JSONish {
 				emit(&c05Case{Shape: fmt.Sprintf("jsonish:%d", n)})
